@@ -2,7 +2,7 @@
 from ..cfg import search, witness_str, dominated_by_edge, elem_dominates
 from ..expr import show, walk, last, field_of, strip_wrappers, strip_casts, short, const_value, is_assign, assign_parts as _ap, strip_views
 from ..facts import AnalysisBroken
-from ..finite import dominating_facts
+from ..finite import dominating_facts, flatten_fact
 from ..predabs import Vocab, PredAbs, A, Not, And, Or, T, F
 from ..rules import common
 from .c15 import asg, key_of, fn, _reach_until_ret, handler_covers
@@ -424,6 +424,66 @@ def r6(ctx, r):
         ok = ok and pa.entails(closes[0], T)
     r.expect(ok, p, closes[0] if closes else None, "close after response", "the connection is not closed after the response in a separate critical section (close from inside the send's section re-enters the synchronous completion)",
              okdesc="close(sid) after the send, _mutex released and re-acquired")
+    # the close that follows the response must not be able to discard it: sendAsync's completion means "accepted", the bytes may
+    # still sit in the engine's write queue.  Proof searched for in the engine: the Close command of an application-originated
+    # close is deferred (or skipped) while the session's write queue is not empty.
+    fb = ctx.fb()
+    TE = "iora::network::TcpEngine"
+    procs = [g for g in fb.methods_of(TE) if g.ok and any(x.node.get("k") == "mcall" and last(x.node.get("callee", "")) == "closeNow" for x in g.stmts())
+             and any(b.label and b.label.get("k") == "case" and "Close" in show(b.label.get("v") or {}) for b in g.blocks.values())]
+    if len(procs) != 1:
+        raise AnalysisBroken("TcpEngine: command dispatcher with a Close arm not found (%d candidates)" % len(procs))
+    g = procs[0]
+    arm0 = [b for b in g.blocks.values() if b.label and b.label.get("k") == "case" and "Close" in show(b.label.get("v") or {})][0]
+    r.instance()
+
+    def is_close_now(b):
+        return any(x.kind == "stmt" and x.node.get("k") == "mcall" and last(x.node.get("callee", "")) == "closeNow" for x in b.elems)
+
+    # every path of the arm from the case label to closeNow(), with the branch facts collected on the way (the arm is loop free;
+    # a revisit ends the path).  On each path: which origins are still possible, and is the write queue known to be empty?
+    paths = []
+
+    def walk_arm(b, facts, seen):
+        if b.id in seen or len(paths) > 512:
+            return
+        if is_close_now(b):
+            paths.append(list(facts))
+            return
+        succs = [x for x in b.succs if x is not None]
+        if b.cond is not None and len(succs) == 2 and b.edge_label(0) is True:
+            for si, truth in ((0, True), (1, False)):
+                if b.succs[si] is not None:
+                    walk_arm(g.blocks[b.succs[si]], facts + flatten_fact(b.cond, truth), seen | {b.id})
+        else:
+            for x in succs:
+                nb = g.blocks[x]
+                if nb.label and nb.label.get("k") in ("case", "default") and nb is not arm0:
+                    continue
+                walk_arm(nb, facts, seen | {b.id})
+
+    walk_arm(arm0, [], frozenset())
+    if not paths:
+        raise AnalysisBroken("TcpEngine Close arm: no path to closeNow()")
+    proof = True
+    for facts in paths:
+        app_possible, drained = True, False
+        for (c, t) in facts:
+            txt = show(c)
+            if c.get("k") == "bin" and c.get("op") in ("==", "!=") and "closeOrigin" in txt:
+                eq = (c.get("op") == "==") == t
+                names_app = "CloseOrigin::App" in txt or txt.rstrip(")").endswith("App")
+                if eq and not names_app:
+                    app_possible = False
+                if not eq and names_app:
+                    app_possible = False
+            if "wq" in txt and "empty()" in txt and c.get("k") in ("mcall", "call") and t:
+                drained = True
+        if app_possible and not drained:
+            proof = False
+    r.expect(proof, p, closes[0] if closes else None, "close may discard the queued response", "processHttpRequest calls close(sid) as soon as sendAsync has ACCEPTED the response; TcpEngine handles an application Close by closeNow() "
+             "without looking at the session's write queue, so for a response larger than what the socket takes at once the tail still queued is discarded: the peer receives fewer body bytes than Content-Length announces, then EOF "
+             "(`Connection: close`, HTTP/1.0 and every error path)", okdesc="application close is deferred until the write queue has drained")
     # completion lambda only records
     lam = [lf for (ln, lf) in p.lambdas if any(asg(x.node) and key_of(asg(x.node)[0]) == "sendSucceeded" for x in lf.stmts())]
     r.instance()
